@@ -43,6 +43,7 @@ type ShardResult struct {
 	Bounds     map[string]any       `json:"bounds"`
 	StrayOut   int64                `json:"stray_output_bytes"`
 	WallS      float64              `json:"wall_s"`
+	Blob       []byte               `json:"blob,omitempty"` // property-specific per-shard data for the supervisor's Post step
 }
 
 type Ctx struct {
